@@ -190,6 +190,23 @@ def body(run):
                 run.add_violation('a valid source pixel is invalid in the corrected image although the reference is valid there and the data are positive', dict(bc['desc'], band=b + 1),
                                   observed=dict(pixel=[r, c], n=int(lost.sum())), signature=dict(kind='mask-lost', model=model, cause='other'))
                 break
+    # ---- a tiny island of valid pixels alone in its block (2, 3, 4 ... pixels of different values): kept, like every other valid pixel
+    for k in range(run.scale(4, 12)):
+        n_isl = [3, 2, 4, 6, 9, 5][k % 6]
+        model = ['gain-blk-offset', 'gain'][k % 4 == 3]
+        ic_ = e2e.island_case(run.work, rng, n_isl, model=model, tag='isl', threads=[1, 2][k % 2])
+        got = np.isfinite(ic_['res']['corr']['array'][0])
+        dist['island/' + model] = dist.get('island/' + model, 0) + 1
+        run.count_case(('isl', k), True, ic_['desc'] if k < 1 else None)
+        if ic_['nblk'] < 4:
+            continue
+        if (got & ~ic_['smask']).any():
+            run.add_violation('a corrected pixel is valid although the source pixel is not', ic_['desc'], observed=dict(n=int((got & ~ic_['smask']).sum())), signature=dict(kind='mask-invented'))
+        lost = ic_['smask'] & ~got
+        if lost.any():
+            r, c = [int(v) for v in np.argwhere(lost)[0]]
+            run.add_violation('a valid source pixel is invalid in the corrected image although the reference is valid there and the data are positive', ic_['desc'],
+                              observed=dict(pixel=[r, c], n=int(lost.sum()), island_pixels_lost=int((lost & ic_['island']).sum())), signature=dict(kind='mask-lost', model=model, cause='other'))
     run.cov['rule'] = ('real fusions of positive textured data with the reference valid over the footprint: geometries (ratios, sub-pixel offsets with the x.5 / x.25 '
                        'family over-sampled, origins up to 7.6e6), source masks (holes, 1-px islands, borders, a nearly empty block), 3 models, kernels incl. h != w, '
                        '3 grids, source invalidity stored as NaN / finite nodata (-9999, 0, 1000) / internal mask / uint16 0, 1..30 blocks, nearest / bilinear / cubic-spline up-sampling, output nodata NaN / numeric / internal mask on float32 / uint16 / float64: '
